@@ -42,7 +42,7 @@ def register(R):
     # ---- _propagate_implicit_values -----------------------------------------------------------
     def piv_req(c):
         s = c.ref('self')
-        return [('valid-self', S.valid_flags(c.pre, s)), ('wft-axiom', S.wft_axiom(c.eng, c.pre)), ('wft-self', S.WFT(s)), ('desc-valid', S.desc_valid(c.pre, s))]
+        return [('valid-self', S.valid_flags(c.pre, s)), ('wft-axiom', S.wft_axiom(c.eng, c.pre), {'static': S.STRUCT_FIELDS}), ('wft-self', S.WFT(s)), ('desc-valid', S.desc_valid(c.pre, s))]
 
     def child_post(c, pre, post, s, ch, which=None):
         early = S.early_return(pre, s)
@@ -78,7 +78,7 @@ def register(R):
 
     def mono(pre, post):
         x = z3.Int('!mx')
-        return z3.ForAll([x], z3.Implies(S.safe(post, x), S.safe(pre, x)))
+        return S.FA([x], z3.Implies(S.safe(post, x), S.safe(pre, x)))
 
     def piv_ens(c):
         s = c.ref('self')
@@ -94,11 +94,11 @@ def register(R):
         ch = r_of(m.get(k))
         pos = z3.Select(m.pos, k)
         return [
-            ('frame', z3.ForAll([x], z3.Implies(z3.Not(S.Desc(s, x)), unchanged(L.entry_heap, L.heap, x)))),
-            ('todo-untouched', z3.ForAll([k], z3.Implies(z3.And(m.has(k), pos >= L.i), unchanged(L.entry_heap, L.heap, ch)), patterns=[m.get(k)])),
-            ('todo-subtrees-untouched', z3.ForAll([k, x], z3.Implies(z3.And(m.has(k), pos >= L.i, S.Desc(ch, x)), unchanged(L.entry_heap, L.heap, x)),
+            ('frame', S.FA([x], z3.Implies(z3.Not(S.Desc(s, x)), unchanged(L.entry_heap, L.heap, x)))),
+            ('todo-untouched', S.FA([k], z3.Implies(z3.And(m.has(k), pos >= L.i), unchanged(L.entry_heap, L.heap, ch)), patterns=[m.get(k)])),
+            ('todo-subtrees-untouched', S.FA([k, x], z3.Implies(z3.And(m.has(k), pos >= L.i, S.Desc(ch, x)), unchanged(L.entry_heap, L.heap, x)),
                                                    patterns=[z3.MultiPattern(m.get(k), S.Desc(ch, x))])),
-        ] + [('done:' + p, z3.ForAll([k], z3.Implies(z3.And(m.has(k), pos < L.i), child_post(c, L.entry_heap, L.heap, s, ch, p)), patterns=[m.get(k)])) for p in PARTS] + [
+        ] + [('done:' + p, S.FA([k], z3.Implies(z3.And(m.has(k), pos < L.i), child_post(c, L.entry_heap, L.heap, s, ch, p)), patterns=[m.get(k)])) for p in PARTS] + [
             ('mono', mono(L.entry_heap, L.heap)),
             ('valid', S.desc_valid(L.heap, s)),
             ('not-early', z3.Not(S.early_return(L.entry_heap, s))),
